@@ -413,7 +413,7 @@ func plans() []plan {
 func TestCheck(t *testing.T) {
 	rec = mon.Open("C09")
 	defer rec.Close()
-	rec.Note("rule", "a case is one timeline against the real limiter in a synctest bubble: (lockstep) seeded Add/burst/sleep sequences with sleeps to just before, exactly at and just after the reference window end, compared signal-for-signal with the statement's automaton; (racing) bursts from 2-8 goroutines at shared virtual instants with a prompt or slow consumer, ended by Close or cancel at a seeded instant, judged by the conservation and bounded-progress invariants; (directed) the run loop parked at loop.top / input.recv / timer.recv while Add / Close / cancel are issued. Non-trivial = at least two Adds or a placed operation; distinct = distinct (config, step list).")
+	rec.Note("rule", "a case is one timeline against the real limiter in a synctest bubble: (lockstep) seeded Add/burst/sleep sequences with sleeps to just before, exactly at and just after the reference window end, compared signal-for-signal with the statement's automaton; (racing) bursts from 2-8 goroutines at shared virtual instants with a prompt or slow consumer, ended by Close or cancel at a seeded instant, judged by the conservation and bounded-progress invariants; (directed) the run loop parked at loop.top / input.recv / timer.recv while Add / Close / cancel are issued. (longchain) long runs of Adds across many windows; (fakeclock) the limiter on a fake clock that is only stepped while it has waiters, tick and input both ready; (lifecycle) Close before Run, Run called a second time on a live limiter, Close repeated and overlapping, cancel then Close: every Run and Close call returns and nothing stays parked inside the limiter; (feedback) a consumer that answers each signal with an Add - slow, or prompt with a pending-events cap of 1 (ping-pong: 1+n signals for 1+n Adds), the run loop optionally parked at loop.top, half of the cases on one P. Non-trivial = at least two Adds or a placed operation; distinct = distinct (config, step list).")
 	rec.Note("require", []string{"park.loop.top", "park.input.recv", "park.timer.recv", "lockstep.signals_matched", "lockstep.window_end_exact", "lockstep.cap_fired", "racing.adds", "longchain.adds_in_one_window", "racing.shutdown_with_undelivered_signals", "lockstep.burst_owed_signal", "shutdown.close", "shutdown.cancel", "shutdown.overlapping_close_calls_checked", "directed.close_while_parked", "fakeclock.adds_racing_window_end_signalled", "lifecycle.run_on_closed_limiter", "lifecycle.close_called_again", "lifecycle.close_again_after_run_on_closed", "feedback.add_right_after_a_late_receive", "pingpong.chains_completed_in_one_instant", "pingpong.opening_adds_while_loop_busy", "lockstep.second_run_call_returned"})
 	ps := plans()
 	rec.Planned(len(ps))
